@@ -964,3 +964,71 @@ def td_snapshot_findings(seed, n=8, max_findings=3):
                 bad('td-snapshot-unloadable', 'a state object read at iteration %d could not be loaded after the source '
                     'ran on: %r' % (it, e), c)
     return out, nsnap
+
+
+# --------------------------------------------------------------------------
+# C05/C17: a saved state whose (consistently) adapted ladder is not monotone must be restored as is
+# --------------------------------------------------------------------------
+
+def ladder_state_roundtrip_findings(seed, n=6, max_findings=2):
+    """With a finite hottest temperature and large adjustments the annealer can push an
+    intermediate beta below the hottest one; such states are rare along random runs, so they are
+    produced here from real saved states by enlarging one of the annealer's log temperature
+    differences S and recomputing the betas with the annealer's own (documented) recursion —
+    the state stays internally consistent, as if the acceptance history had been different.
+    Oracle: set_state followed by state returns the same value; ladder array == level betas."""
+    from epsie.samplers import ParallelTemperedSampler
+    from epsie.chain.ptchain import DynamicalAnnealer
+    from epsie.proposals import Normal
+    rng = random.Random(seed)
+    out = []
+    done = 0
+
+    class M:
+        def __call__(self, x):
+            return -math.floor(x * x * 8) / 16.0, 0.0
+
+    def build(sd, betas, s):
+        return ParallelTemperedSampler(['x'], M(), 2, numpy.array(betas), swap_interval=s,
+                                       proposals=[Normal(['x'], cov=[0.5])],
+                                       adaptive_annealer=DynamicalAnnealer(tau=50, nu=1, Tmax_prior=False), seed=sd)
+    for _ in range(n):
+        nt = rng.choice([3, 4, 5])
+        betas = sorted({1.0} | {rng.choice(plumbing.DYADIC_BETAS[2:]) for _ in range(nt)}, reverse=True)
+        if len(betas) < 3:
+            continue
+        s = rng.choice([1, 2])
+        A = build(rng.randrange(1 << 20), betas, s)
+        nt = len(betas)
+        A.start_position = {'x': numpy.array([[rng.uniform(-1, 1) for _ in A.chains] for _ in range(nt)])}
+        A.run(rng.randint(2, 6))
+        st = pickle.loads(pickle.dumps(A.state))
+        try:
+            for cid in st:
+                S = st[cid]['adaptive_annealer']['S']
+                S[-1] = S[-1] + math.log(rng.choice([4.0, 16.0, 64.0]))
+                b = [float(st[cid][0]['beta'])]
+                for i in range(1, nt - 1):
+                    b.append(1. / (1. / b[i - 1] + float(numpy.exp(S[i - 1]))))
+                    st[cid][i]['beta'] = b[i]
+        except (KeyError, TypeError, IndexError):
+            continue          # the state layout is not the one this probe knows: nothing to say
+        done += 1
+        B = build(rng.randrange(1 << 20), betas, s)
+        try:
+            B.set_state(pickle.loads(pickle.dumps(st)))
+            back = B.state
+        except Exception as e:
+            out.append(('state-roundtrip-ladder-raises', 'loading a state with a non-monotone adapted ladder raised %r' % (e,),
+                        {'betas': betas}))
+            continue
+        if _state_digest(back) != _state_digest(st) and len(out) < max_findings:
+            out.append(('state-roundtrip-ladder', 'set_state followed by state does not return the saved value for an adapted '
+                        'ladder that is not monotone (saved level betas %s)' % [float(st[0][i]['beta']) for i in range(nt)],
+                        {'betas': betas}))
+        for ch in B.chains:
+            if [float(x) for x in ch.betas] != [float(l.beta) for l in ch.chains] and len(out) < max_findings:
+                out.append(('state-roundtrip-ladder-incoherent', 'after loading, the ladder array %s differs from the level betas %s'
+                            % ([float(x) for x in ch.betas], [float(l.beta) for l in ch.chains]), {'betas': betas}))
+                break
+    return out, done
